@@ -16,7 +16,7 @@ from geometer.base import KroneckerDelta, LeviCivitaTensor
 from .. import common as C
 from .. import ops as O
 from .. import zoo as Z
-from ..runner import Fail, HarnessError, Law, Skip, case_hash, exc_fail
+from ..runner import Fail, HarnessError, Law, Skip, call, case_hash, exc_fail
 
 RULE = (
     "Hypothesis RuleBasedStateMachine per dimension (2, 3): a pool of ~45 shared objects (points, lines, planes, quadrics incl. "
@@ -626,4 +626,100 @@ LAWS.append(
         + (["delta-p>n"] if any(q[0] == "delta" and q[2] > q[1] for q in c["queries"]) else []),
         {"quick": 600, "thorough": 8000}, "sequences of LeviCivitaTensor / KroneckerDelta queries from empty process-wide tables: every answer equals its definition", shard=150,
         mandatory=("delta-with-swapped-sizes", "delta-p>n"))
+)
+
+
+# ------------------------------------------------------------------------------------------- the numeric kernels and large collections
+@st.composite
+def kernel_case(draw, tier="quick"):
+    return {"n": draw(st.sampled_from([2, 2, 3, 4, 5])), "batch": draw(st.sampled_from([[], [3], [64], [70], [8, 8], [2, 32], [63]])), "seed": draw(st.integers(0, 10**6)),
+            "dtype": draw(st.sampled_from(["float", "int", "complex"])), "layout": draw(st.sampled_from(["C", "F", "view"]))}
+
+
+def run_kernels(c):
+    """the operand arrays of det / inv / adjugate / null_space / orth / is_multiple / hat_matrix and of the collection methods
+    that rest on them (inverse, dual, power, action on hyperplanes - also on the projective line, whose 2x2 matrices have their
+    own closed forms, and for 64 and more elements) are bit-for-bit unchanged afterwards and a repeated query returns the same"""
+    from geometer import utils as U
+    from geometer import QuadricCollection, TransformationCollection, PointCollection
+
+    from ..runner import Checker
+
+    n, batch = c["n"], tuple(c["batch"])
+    if n not in (2, 3, 4, 5) or len(batch) > 2 or any(not isinstance(b, int) or not 1 <= b <= 70 for b in batch) or c["dtype"] not in ("float", "int", "complex"):
+        raise Skip("malformed")
+    size = int(np.prod(batch)) if batch else 1
+    # deterministic well-conditioned matrices: integer entries, dominant diagonal
+    idx = np.arange(size * n * n).reshape((size, n, n))
+    A = ((idx * 7 + c["seed"] % 97 + (idx // 3) * 5) % 7 - 3).astype(float)
+    A += np.eye(n) * (2 * n + 3) * np.where(np.arange(size) % 2, 1, -1)[:, None, None]
+    if c["dtype"] == "complex":
+        A = A + 1j * ((idx * 3 + c["seed"] % 13) % 5 - 2)
+    elif c["dtype"] == "int":
+        A = A.astype(np.int64)
+    A = A.reshape(batch + (n, n))
+    if c["layout"] == "F":
+        A = np.asfortranarray(A)
+    elif c["layout"] == "view":
+        big = np.zeros(batch + (n + 1, n + 2), A.dtype)
+        big[..., :n, :n] = A
+        A = big[..., :n, :n]
+    ck = Checker()
+
+    def pure(site, f, *arrays, compare=True):
+        before = [a.copy() for a in arrays]
+        r1, e = call(site, f, *arrays)
+        if e:
+            ck.add(e)
+            return
+        ok = ck.check(all(np.array_equal(a, b) and a.dtype == b.dtype for a, b in zip(arrays, before)), site + ":operand-changed", (n, list(batch), c["dtype"], c["layout"]))
+        r2, e = call(site + ":again", f, *arrays)
+        if e:
+            ck.add(e)
+        elif ok and compare:
+            ck.check(np.allclose(np.asarray(r1), np.asarray(r2), rtol=0, atol=0, equal_nan=True), site + ":second-answer-differs", (n, list(batch), c["dtype"]))
+
+    tag = f"n{n}:" + ("single" if not batch else (">=64" if size >= 64 else "<64"))
+    pure(f"kernel:det:{tag}", U.det, A)
+    pure(f"kernel:inv:{tag}", U.inv, A)
+    pure(f"kernel:adjugate:{tag}", U.adjugate, A)
+    pure(f"kernel:null_space:{tag}", lambda a: U.null_space(a[..., :-1, :], 1), A, compare=False)
+    pure(f"kernel:orth:{tag}", lambda a: U.orth(a[..., :, :-1], n - 1), A, compare=False)
+    pure(f"kernel:is_multiple:{tag}", lambda a, b: U.is_multiple(a, b, axis=(-2, -1)), A, A * 2)
+    if n <= 4 and batch:
+        # the same matrices as projective objects (dimension n - 1; dimension 1 for the 2x2 matrices)
+        def obj_pure(site, build, query):
+            o = build()
+            before = o.array.copy()
+            r1, e = call(site, query, o)
+            if e:
+                ck.add(e)
+                return
+            ck.check(np.array_equal(o.array, before), site + ":operand-changed", (n, list(batch), c["dtype"]))
+            r2, e = call(site + ":again", query, o)
+            if e:
+                ck.add(e)
+            else:
+                a1, a2 = (np.asarray(getattr(r, "array", r)) for r in (r1, r2))
+                ck.check(a1.shape == a2.shape and np.allclose(a1, a2, rtol=0, atol=0, equal_nan=True), site + ":second-answer-differs", (n, list(batch), c["dtype"]))
+
+        Af = np.ascontiguousarray(A)
+        obj_pure(f"collection:inverse:{tag}", lambda: TransformationCollection(Af), lambda t: t.inverse())
+        obj_pure(f"collection:power-1:{tag}", lambda: TransformationCollection(Af), lambda t: t**-1)
+        S = Af + np.swapaxes(Af, -1, -2)
+        obj_pure(f"collection:dual:{tag}", lambda: QuadricCollection(S), lambda q: q.dual)
+        pts = np.ones(batch + (n,))
+        pts[..., 0] = 2
+        obj_pure(f"collection:apply-to-points:{tag}", lambda: TransformationCollection(Af), lambda t: t * PointCollection(pts))
+        if n >= 3:
+            H = (G.LineCollection if n == 3 else G.PlaneCollection)(pts)
+            obj_pure(f"collection:apply-to-hyperplanes:{tag}", lambda: TransformationCollection(Af), lambda t: t * H)
+    return ck.result()
+
+
+LAWS.append(
+    Law("kernel_arguments", lambda tier: kernel_case(tier), run_kernels, lambda c: bool(c["batch"]),
+        lambda c: [f"n{c['n']}", c["dtype"], c["layout"]] + (["n2:>=64"] if c["n"] == 2 and c["batch"] and int(np.prod(c["batch"])) >= 64 else []) + (["several-axes"] if len(c["batch"]) > 1 else []),
+        {"quick": 400, "thorough": 6000}, "operand arrays of the linear-algebra kernels and of the collection methods built on them stay bit-for-bit unchanged; repeated query, same answer "
+        "(sizes 2..5, batches of 1..70 on one or two axes, float / integer / complex, C / Fortran order / views)", shard=100, mandatory=("n2:>=64", "several-axes", "complex"))
 )
